@@ -34,6 +34,7 @@ func regCmd(args []string) error {
 	pre := fs.Int("pre", 0, "apply the first N ops of each scenario directly to the in-memory registry underneath the stack")
 	honest := fs.Bool("honest", false, "uploads only as a well-behaved caller drives them (needed for stacks with an HTTP hop)")
 	fs.Parse(args)
+	genRetireAfterCommit = strings.Contains(*stacks, "http")
 	f, err := os.Create(*out)
 	if err != nil {
 		return err
@@ -80,7 +81,7 @@ func regCmd(args []string) error {
 			w.prefix = env.subPrefix
 		}
 		w.emit(ev{"op": "reset", "imm": sc.Imm, "stack": sc.Stack, "hops": strings.Count(sc.Stack, "http"), "rec": rec != nil,
-			"omitdigest": strings.Contains(sc.Stack, "omitdigest"), "wrap": wrap})
+			"omitdigest": strings.Contains(sc.Stack, "omitdigest"), "wrap": wrap, "minchunk": minChunkOf(sc.Stack, env)})
 		ctx := context.Background()
 		for i, op := range sc.Ops {
 			if i < *pre && len(env.mems) == 1 {
@@ -96,7 +97,7 @@ func regCmd(args []string) error {
 					}
 				}
 				w.top, w.direct = top, false
-				w.noFreshIDs = strings.Contains(sc.Stack, "http")
+				w.noFreshIDs = strings.Contains(sc.Stack, "http") || strings.Contains(sc.Stack, "unify")
 			}
 			w.step(ctx, op)
 			w.snap(ctx)
@@ -139,4 +140,16 @@ func regCmd(args []string) error {
 	}
 	fmt.Printf("{\"scenarios\":%d}\n", total)
 	return nil
+}
+
+// minChunkOf is the minimum chunk length the outermost client is told about: the chunk size
+// of the writers of whatever the outermost server sits on.
+func minChunkOf(stack string, env *stackEnv) int {
+	if strings.Count(stack, "http") >= 2 {
+		return 65536 // an inner client's writers report its default chunk size
+	}
+	if env.minChunk > 0 {
+		return env.minChunk
+	}
+	return 8192
 }
